@@ -37,7 +37,11 @@ pub fn run(k: &str, c: &Value) -> Value {
             let s = match Series1::try_new(xs.clone(), ys.clone()) { Ok(s) => s, Err(_) => return json!({"err": true}) };
             let l = s.best_fit_line();
             let p = Polynomial::<2>::least_squares(&xs, &ys, None);
-            json!({"m": hx(l.m()), "b": hx(l.b()), "pc": hxs(&p.c)})
+            // the line through the first and the last sample, in both argument orders
+            let n = xs.len();
+            let two = |a: usize, b: usize| match engeom::func1::Line1::try_from_points(xs[a], ys[a], xs[b], ys[b]) {
+                Ok(l) => json!([hx(l.m()), hx(l.b())]), Err(_) => Value::Null };
+            json!({"m": hx(l.m()), "b": hx(l.b()), "pc": hxs(&p.c), "two": two(0, n - 1), "two_rev": two(n - 1, 0)})
         }
         "c09.circle3" => {
             let (p0, p1, p2) = (p2(&c["p0"]), p2(&c["p1"]), p2(&c["p2"]));
